@@ -354,6 +354,148 @@ def diagonal_check(path, label, n_per_reader):
         f.close()
 
 
+# ------------------------------------------------------------------------------------------------ block-exact oracles
+def _block_geometry(sp):
+    """(ds, nbx, nbz) of a 3D file whose compressed blocks are one 4 KiB disk block each (specification: block (bi, bx, bz) is
+    disk block (bi * nbx + bx) * nbz + bz of the data section); None if the layout is not of that kind"""
+    if sp.is2d or sp.bs[0] * sp.bs[1] * sp.bs[2] * sp.rate != 8 * 4096:
+        return None
+    nbi, nbx, nbz = (sp.shape_pad[k] // sp.bs[k] for k in range(3))
+    if nbi * nbx * nbz != sp.ndb:
+        return None
+    return 4096 * sp.nhb, nbx, nbz
+
+
+def inline_group_check(d):
+    """default layout, both backends: read_inline(i) fetches exactly the disk blocks of inline group i // 4 (one contiguous
+    range of nbx * nbz blocks), every byte once, no byte of a neighbouring group or beyond the data section. The number of disk
+    blocks of one group is chosen so that it is NOT a multiple of ceil(n / 20) (20 = request parallelism of the remote backend):
+    any splitting of the group into equal parts has a ragged last part."""
+    ragged = [n for n in range(21, 61) if n % (-(-n // 20)) != 0]
+    for rep in range(2 if quick else 4):
+        bpv = rng.choice([4, 8, 16])
+        zb = 2048 // bpv
+        nbz = rng.choice([1, 1, 1, 3])
+        nbx = rng.choice([n for n in ragged if n % nbz == 0]) // nbz
+        n_il, n_xl = rng.choice([5, 6, 7, 8, 9]), 4 * nbx - rng.randrange(4)
+        ns = zb * (nbz - 1) + rng.choice([3, 7, min(zb, 40)])
+        p = os.path.join(d, f'ilg{rep}.sgz')
+        write_numpy_sgz(p, rnd_cube(rng, (n_il, n_xl, ns)), bpv=bpv, blockshape=(4, 4, -1))
+        sp = SpecFile(p)
+        geo = _block_geometry(sp)
+        label = f'numpy {(n_il, n_xl, ns)} bpv={bpv} bs={tuple(sp.bs)}'
+        if geo is None or (geo[1], geo[2]) != (nbx, nbz) or tuple(sp.bs[:2]) != (4, 4):
+            R.notes.append(f'{label}: not the expected default layout, inline-group oracle skipped')
+            continue
+        ds, _, _ = geo
+        size = 4096 * nbx * nbz
+        for backend in ('blob', 'file'):
+            f = CountingBlob(p) if backend == 'blob' else CountingFile(p)
+            try:
+                with quiet(SgzReader, f) as r:
+                    for i in sorted({0, n_il - 1, rng.randrange(n_il)}):
+                        r.loader.clear_cache()
+                        f.log.clear()
+                        inp = {'file': label, 'op': 'read_inline', 'args': [i], 'backend': backend, 'group_disk_blocks': nbx * nbz}
+                        R.case(('ilgroup', label, backend, i), sample=inp)
+                        R.count(f'inline group, {backend} backend')
+                        try:
+                            quiet(r.read_inline, i)
+                        except Exception as e:
+                            R.violation('oracle', inp, f'raised {type(e).__name__}: {e}')
+                            continue
+                        lo = ds + size * (i // 4)
+                        ivs = sorted((o, o + l) for o, l in f.log if l > 0)
+                        outside = [(o, e - o) for o, e in ivs if o < lo or e > lo + size]
+                        if outside:
+                            R.violation('oracle', inp, f'requests {outside[:3]} leave the disk blocks of inline group {i // 4} '
+                                        f'= bytes [{lo}, {lo + size}) (data section ends at {ds + 4096 * sp.ndb})')
+                        elif any(b[0] < a_[1] for a_, b in zip(ivs, ivs[1:])):
+                            R.violation('oracle', inp, 'bytes of the inline group requested twice within one read')
+                        elif sum(e - o for o, e in ivs) != size:
+                            R.violation('oracle', inp, f'{sum(e - o for o, e in ivs)} bytes fetched, the inline group has {size}')
+            finally:
+                f.close()
+        os.remove(p)
+
+
+def diagonal_window_check(d):
+    """diagonal reads with a sample window on files whose traces span several z-blocks: every byte fetched lies in a disk block
+    (bi, bx, bz) with (bi, bx) the block column of a trace of the (cropped) diagonal and bz a z-block the window intersects.
+    All four kinds: correlated with negative / non-negative id, anticorrelated in the upper / lower half."""
+    configs = [(16, (4, 4, -1)), (32, (4, 4, -1)), (8, (8, 8, 64)), (4, (16, 16, 32)), (2, (16, 16, 64))]
+    for rep, (bpv, bs) in enumerate(rng.sample(configs, 3 if quick else 5)):
+        bsr = szutils.define_blockshape_3d(bpv, bs)[1]
+        n_il, n_xl = rng.choice([5, 7, bsr[0] + 2]), rng.choice([6, 9, bsr[1] + 1])
+        ns = bsr[2] * rng.choice([2, 3]) + rng.choice([1, 5, bsr[2] // 2])
+        p = os.path.join(d, f'dgw{rep}.sgz')
+        write_numpy_sgz(p, rnd_cube(rng, (n_il, n_xl, ns)), bpv=bpv, blockshape=bs)
+        sp = SpecFile(p)
+        geo = _block_geometry(sp)
+        label = f'numpy {(n_il, n_xl, ns)} bpv={bpv} bs={tuple(sp.bs)}'
+        if geo is None:
+            R.notes.append(f'{label}: blocks are not single disk blocks, diagonal-window oracle skipped')
+            continue
+        ds, nbx, nbz = geo
+        b0, b1, b2 = sp.bs
+        kinds = [(False, rng.randrange(-(n_xl - 1), 0)), (False, rng.randrange(0, n_il)),
+                 (True, rng.randrange(0, n_xl)), (True, rng.randrange(n_xl, n_il + n_xl - 1)), (True, n_xl)]
+        for anti, idn in kinds:
+            # traces of the full diagonal, from the definition: correlated id c: (il, xl) with il - xl = c; anticorrelated id a:
+            # il + xl = a; both in order of increasing inline
+            cells = [(il, il - idn) for il in range(n_il) if 0 <= il - idn < n_xl] if not anti else \
+                    [(il, idn - il) for il in range(n_il) if 0 <= idn - il < n_xl]
+            ln = len(cells)
+            zk = rng.randrange(nbz)
+            z_lo, z_hi = b2 * zk, min(ns, b2 * (zk + 1))
+            s0 = rng.randrange(z_lo, z_hi)
+            s1 = rng.randrange(s0 + 1, z_hi + 1)                       # a window inside ONE z-block
+            crops = [(None, None)]
+            if ln >= 2:
+                lo = rng.randrange(ln - 1)
+                crops.append((lo, rng.randrange(lo + 1, ln + 1)))
+            for crop in crops:
+                for backend in (('file', 'blob') if crop[0] is None else ('file',)):
+                    f = CountingFile(p) if backend == 'file' else CountingBlob(p)
+                    try:
+                        with quiet(SgzReader, f) as r:            # a fresh reader, cold loader caches
+                            r.loader.clear_cache()
+                            f.log.clear()
+                            kw = dict(min_sample_idx=s0, max_sample_idx=s1)
+                            if crop[0] is not None:
+                                kw.update({('min_ad_idx' if anti else 'min_cd_idx'): crop[0], ('max_ad_idx' if anti else 'max_cd_idx'): crop[1]})
+                            name = 'read_anticorrelated_diagonal' if anti else 'read_correlated_diagonal'
+                            inp = {'file': label, 'op': name, 'args': [idn], 'crop': list(crop), 'samples': [s0, s1], 'backend': backend,
+                                   'z_blocks_per_trace': nbz}
+                            R.case(('diagwin', label, anti, idn, crop, s0, s1, backend), sample=inp)
+                            R.count('diagonal with sample window, ' + ('anticorrelated ' + ('lower' if idn >= n_xl else 'upper') if anti
+                                                                       else 'correlated'))
+                            try:
+                                out = quiet(getattr(r, name), idn, **kw)
+                            except Exception as e:
+                                R.violation('oracle', inp, f'raised {type(e).__name__}: {e}')
+                                continue
+                            sel = cells if crop[0] is None else cells[crop[0]:crop[1]]
+                            if tuple(out.shape) != (len(sel), s1 - s0):
+                                R.violation('oracle', inp, f'result shape {tuple(out.shape)}, expected {(len(sel), s1 - s0)}')
+                            allowed = {((il // b0) * nbx + xl // b1) * nbz + bz for il, xl in sel for bz in range(s0 // b2, (s1 - 1) // b2 + 1)}
+                            got = set()
+                            for o, l in f.log:
+                                if l > 0:
+                                    got.update(range((o - ds) // 4096, (o + l - 1 - ds) // 4096 + 1))
+                            extra = sorted(got - allowed)
+                            if extra:
+                                R.violation('oracle', inp, f'{len(got)} disk blocks fetched, {len(extra)} of them hold no requested sample '
+                                            f'(e.g. data blocks {extra[:4]}); the window lies in z-block {zk} of {nbz}: allowed '
+                                            f'{sorted(allowed)[:6]} ({len(allowed)} blocks)')
+                            ivs = sorted((o, o + l) for o, l in f.log if l > 0)
+                            if any(b[0] < a_[1] for a_, b in zip(ivs, ivs[1:])):
+                                R.violation('oracle', inp, 'bytes of the data section requested twice within one diagonal read')
+                    finally:
+                        f.close()
+        os.remove(p)
+
+
 # ------------------------------------------------------------------------------------------------ files
 d = scratch_dir()
 try:
@@ -414,6 +556,8 @@ try:
                 R.notes.append(f'{label} skipped: {type(e).__name__}: {e}')
             else:
                 raise
+    inline_group_check(d)
+    diagonal_window_check(d)
     if use_model and pending:
         vals = coq_eval(['SZ.Gen.Reader', 'SZ.Gen.OpenIO', 'SZ.Model.IOCost'], [t for t, _, _ in pending])
         for (term, chk, inp), v in zip(pending, vals):
